@@ -190,11 +190,15 @@ class InterfaceLDM3:
                 data_provider.data_object)
             stored = self.ldm_service.ldm_maintenance.get_provider_data(
                 data_provider.data_object_id)
-            stored_type_str = (
-                self.ldm_service.get_object_type_from_data_object(
-                    stored["dataObject"])
-                if stored is not None else None
-            )
+            if stored is None:
+                # Deleted by another thread since the existence check
+                return UpdateDataProviderResp(
+                    data_provider.application_id,
+                    data_provider.data_object_id,
+                    UpdateDataProviderResult(1),
+                )
+            stored_type_str = self.ldm_service.get_object_type_from_data_object(
+                stored["dataObject"])
             if stored_type_str == data_object_type_str and self.ldm_service.ldm_maintenance.data_containers.exists(
                 data_object_type_str, data_provider.data_object_id
             ):
@@ -238,13 +242,13 @@ class InterfaceLDM3:
             # Remove the stored object itself (the provider registry is not touched)
             stored = self.ldm_service.ldm_maintenance.get_provider_data(
                 data_provider.data_object_id)
-            if stored is not None:
-                self.ldm_service.ldm_maintenance.del_provider_data(stored)
-            return DeleteDataProviderResp(
-                data_provider.application_id,
-                data_provider.data_object_id,
-                DeleteDataProviderResult.SUCCEED,
-            )
+            # Only the caller that actually removed the object reports success
+            if stored is not None and self.ldm_service.ldm_maintenance.del_provider_data(stored) is not False:
+                return DeleteDataProviderResp(
+                    data_provider.application_id,
+                    data_provider.data_object_id,
+                    DeleteDataProviderResult.SUCCEED,
+                )
         return DeleteDataProviderResp(
             data_provider.application_id,
             data_provider.data_object_id,
